@@ -49,16 +49,17 @@ type Profile struct {
 }
 
 type genState struct {
-	r       *Rand
-	sp      *Spec
-	avail   []int // types that may be used as inputs (have a supplier or are designated arguments)
-	plainS  bool
-	plainI  bool
-	ctxT    int
-	names   []string
-	prof    Profile
-	risky   bool
-	argOdds int // 1 in argOdds inputs is a fresh injector parameter
+	r           *Rand
+	sp          *Spec
+	avail       []int // types that may be used as inputs (have a supplier or are designated arguments)
+	plainS      bool
+	plainI      bool
+	ctxT        int
+	names       []string
+	prof        Profile
+	risky       bool
+	argOdds     int // 1 in argOdds inputs is a fresh injector parameter
+	ctxProvided bool
 }
 
 func (g *genState) newType(k Kind) int {
@@ -465,6 +466,21 @@ func genOnce(r *Rand, pkg string, prof Profile) *Spec {
 			}
 			if r.Chance(1, 2) {
 				g.dropAvail(st)
+			}
+		}
+		// a provider of the context itself (base-context pattern): context.Context is then provided, not a parameter
+		if !g.ctxProvided && !prof.AdversarialNames && r.Chance(1, 40) {
+			g.ctxProvided = true
+			cp := Provider{Name: fmt.Sprintf("P%d", len(g.sp.Providers)), Form: "func", Out: []int{g.ctx()}}
+			if len(g.avail) > 0 && r.Chance(1, 2) {
+				cp.In = []int{g.avail[r.Intn(len(g.avail))]}
+				if g.sp.Types[cp.In[0]].Kind == KCtx {
+					cp.In = nil
+				}
+			}
+			g.sp.Providers = append(g.sp.Providers, cp)
+			if ctxP == 0 {
+				ctxP = 2
 			}
 		}
 		// constants
